@@ -266,14 +266,28 @@ fn conv<T: MontConfig<N>, const N: usize>(c: &FieldCtx, t: &mut Tape<'_>, o: &mu
     match t.below(7) {
         0 => {
             // from_bigint on arbitrary N-limb integers: None exactly when >= p
-            let raw = match t.below(4) {
+            let raw = match t.below(6) {
                 0 => big(&t.limbs(N)),
                 1 => p + BigUint::from(t.below(4)),
                 2 => {
                     let d = BigUint::from(t.below(4) + 1);
                     if *p >= d { p - d } else { BigUint::zero() }
                 },
-                _ => big(&edge_limbs(t, N)),
+                3 => big(&edge_limbs(t, N)),
+                // p +- (an edge word placed in any limb): same top limbs as p, lower limbs far from p's
+                4 => {
+                    if t.chance(1, 4) {
+                        // exact multiples of p that fit
+                        let kmax = ((pow2(64 * N) - 1u32) / p).to_u64_digits().first().copied().unwrap_or(1).max(1);
+                        p * BigUint::from(1 + t.below(kmax.min(1 << 20)))
+                    } else {
+                        p + (BigUint::from(t.edge_u64()) << (64 * t.below(N as u64) as usize))
+                    }
+                },
+                _ => {
+                    let d = BigUint::from(t.edge_u64()) << (64 * t.below(N as u64) as usize);
+                    if *p >= d { p - d } else { BigUint::zero() }
+                },
             };
             let raw = raw % pow2(64 * N);
             let mut l = [0u64; N];
@@ -281,6 +295,8 @@ fn conv<T: MontConfig<N>, const N: usize>(c: &FieldCtx, t: &mut Tape<'_>, o: &mu
             o.show(|| format!("{}: from_bigint({})", c.name, hexs(&raw)));
             o.nt(raw > BigUint::one());
             o.class_if(raw >= *p, "bigint>=p");
+            // the const constructor (also a run-time function): Montgomery conversion of any N-limb integer
+            expect(c, &F::<T, N>::new(BigInt::new(l)), &(&raw % p), "Fp::new")?;
             let r = F::<T, N>::from_bigint(BigInt::new(l));
             if raw >= *p {
                 ensure!(r.is_none(), "from_bigint.accepts>=p", "from_bigint({}) returned Some for a value >= p", hexs(&raw));
